@@ -14,7 +14,7 @@ def mkey_of(ma):
     return (ma.class_name, ma.name, nosp(ma.descriptor))
 
 
-def analyse(datas):
+def analyse(datas, before_xref=None):
     from androguard.core import dex
     from androguard.core.analysis.analysis import Analysis
     an = Analysis()
@@ -23,6 +23,8 @@ def analyse(datas):
         dx = dex.DEX(d)
         an.add(dx)
         dxs.append(dx)
+    if before_xref:
+        before_xref(an, dxs)
     an.create_xref()
     return an, dxs
 
@@ -359,7 +361,23 @@ def shard(ctx, arg):
         ctx.ev()
         ctx.count("analyses")
         try:
-            an, dxs = analyse(datas)
+            hook = None
+            if which == "C15" and rng.random() < 0.3:
+                # interaction with the rename feature: a method whose NAME string is also loaded by const-string instructions is renamed before the
+                # cross-references are built. The instructions still load the string of the file; their xrefs stay with it.
+                def hook(an_, dxs_, wit=wit):
+                    for dx_ in dxs_:
+                        for em in dx_.get_encoded_methods():
+                            if em.get_name() in R.STRINGS and em.get_name() and nosp(em.get_descriptor()) == "(JJJ)V":   # the generator's reflection-style method: no sites of its own
+                                wit["renamed_before_create_xref"] = "%s->%s" % (em.get_class_name(), em.get_name())
+                                for c_ in classes:   # the model follows the rename (only this stub method changes its name)
+                                    for m_ in c_.methods:
+                                        if getattr(m_, "stub", False) and m_.cls == em.get_class_name() and m_.name == em.get_name():
+                                            m_.name = "renamedByTheCheck"
+                                em.set_name("renamedByTheCheck")
+                                ctx.count("methods_renamed_before_create_xref")
+                                return
+            an, dxs = analyse(datas, hook)
         except Exception as e:
             ctx.violation("analysis-raises", "Analysis.add/create_xref raises on generated valid code", dict(wit, exc=exc_str(e)))
             continue
